@@ -156,6 +156,63 @@ def run_reruns(ctx, res, cases):
         c.pop("_obs", None)
 
 
+def run_reconds(ctx, res):
+    """the condition is evaluated at EVERY run: (a) the same task run twice, its condition true the first time and false the second (the first run
+    leaves a file behind); (b) two tasks whose condition TEXT is the same and whose outcome differs through their environment"""
+    ecases = []
+    cond_a = 'echo cond >> "$TRACE"; [ ! -f "$WORKDIR/done.$ID" ]'
+    for k in range(3):
+        t = {"name": "t", "commands": ['echo "c0.0" >> "$TRACE"; : > "$WORKDIR/done.$ID"', 'echo "c0.1" >> "$TRACE"'], "condition": cond_a, "env": {"ID": "a%d" % k},
+             "before": ['echo b0 >> "$TRACE"'] if k else [], "after": ['echo a0 >> "$TRACE"'] if k > 1 else [], "variations": None}
+        ecases.append({"id": len(ecases), "dir": ctx.workdir, "tasks": [t, {"name": "mark", "commands": ['echo MARK >> "$TRACE"']}],
+                       "plan": [{"op": "run", "tasks": [0]}, {"op": "run", "tasks": [1]}, {"op": "run", "tasks": [0]}], "format": "raw", "shape": "same-task", "nb": 1 if k else 0, "na": 1 if k > 1 else 0})
+    cond_b = 'echo cond >> "$TRACE"; [ "$GO" = yes ]'
+    for first in ("yes", "no"):
+        other = "no" if first == "yes" else "yes"
+        mk = lambda nm, go: {"name": nm, "commands": ['echo "c0.0" >> "$TRACE"'], "condition": cond_b, "env": {"GO": go}, "variations": None}
+        ecases.append({"id": len(ecases), "dir": ctx.workdir, "tasks": [mk("t1", first), {"name": "mark", "commands": ['echo MARK >> "$TRACE"']}, mk("t2", other)],
+                       "plan": [{"op": "run", "tasks": [0]}, {"op": "run", "tasks": [1]}, {"op": "run", "tasks": [2]}], "format": "raw", "shape": "same-text", "first": first})
+    obs, logs = vlib.run_engine(ctx.workdir, "taskrun", ecases, tag="recond")
+    items = []
+    for c in ecases:
+        o = obs.get(c["id"])
+        res.evaluations += 1
+        res.count("recond")
+        res.nontrivial_keys.add("recond-%s-%d" % (c["shape"], c["id"]))
+        case = {"kind": "recond", "shape": c["shape"], "tasks": c["tasks"], "plan": c["plan"]}
+        if not o or not o.get("results") or o.get("panic") or o.get("hung"):
+            res.violations.append({"class": None, "what": "running tasks with conditions crashed or hung", "case": case, "observed": o})
+            continue
+        tr = o.get("trace") or []
+        if "MARK" not in tr:
+            res.mismatches.append({"what": "trace lacks the separator", "case": case, "observed": tr})
+            continue
+        halves = [tr[:tr.index("MARK")], tr[tr.index("MARK") + 1:]]
+        if c["shape"] == "same-task":
+            runs_first = [True, False]
+            nb, na = c["nb"], c["na"]
+        else:
+            runs_first = [c["first"] == "yes", c["first"] != "yes"]
+            nb = na = 0
+        for h, runs in zip(halves, runs_first):
+            a = {"cond": ("exit", 0 if runs else 1), "before": [("exit", 0)] * nb, "jobs": [[(("exit", 0), []) for _ in range(2 if c["shape"] == "same-task" else 1)]],
+                 "after": [("exit", 0)] * na, "allow": False, "novar": True}
+            fake = {"output_b64": "", "exit_code": 0, "err": False, "errored": False, "skipped": not runs}
+            items.append("(%d%%N, (%s, %s))" % (len(items), tasklib.coq_task(a), tasklib.coq_observed(fake, h)))
+            c.setdefault("_k", []).append(len(items) - 1)
+    bad = set()
+    for rc, out, start, cnt in vlib.coq_eval_sharded(ctx.workdir, "cases_c06recond", HEADER, items, lambda: FOOTER, shard=500):
+        if rc != 0:
+            res.mismatches.append({"what": "cases.v did not evaluate", "detail": out[-1500:]})
+            continue
+        bad.update(vlib.nums(vlib.coq_printed(out).get("BAD_TRACE", "")))
+        res.traces_validated += cnt
+    for c in ecases:
+        if any(k in bad for k in c.get("_k", [])):
+            res.violations.append({"class": None, "what": "a task's condition is evaluated at every run: a run was skipped / executed according to ANOTHER run's condition result",
+                                   "case": {"kind": "recond", "shape": c["shape"], "tasks": c["tasks"], "plan": c["plan"]}, "observed": (obs.get(c["id"]) or {}).get("trace")})
+
+
 CFG_MODES = {"direct": ["t"], "run-task": ["run", "task", "t"], "stage": ["p"], "stage-overrides": ["po"], "nested": ["outer"], "stage-allow": ["pa"]}
 FOOTER_CFG = """
 Definition BAD := Eval vm_compute in bad_ids (fun c => trace_ok (fst c) (mkObs (fst (snd c)) false false false 0%Z []) && Bool.eqb (o_err (run_task (fst c))) (snd (snd c))) cases.
@@ -224,6 +281,11 @@ def run_cfg(ctx, res, cases):
 
 def run(ctx):
     res = vlib.Result()
+    if ctx.replay_cases and all(c.get("kind") == "recond" for c in ctx.replay_cases):
+        run_reconds(ctx, res)
+        res.rule = "replay of the condition-at-every-run cases"
+        res.samples = ctx.replay_cases[:2]
+        return res
     if ctx.replay_cases and all(c.get("kind") == "cfg" for c in ctx.replay_cases):
         run_cfg(ctx, res, ctx.replay_cases)
         res.rule = "replay of configuration-file cases"
@@ -256,6 +318,7 @@ def run(ctx):
         res.mismatches.append({"what": "skipped/errored/exit-code/error differ from the model (C07's subject)", "case": cases[cid], "observed": obs.get(cid)})
     if not ctx.replay_cases:
         run_reruns(ctx, res, rerun_cases(ctx))
+        run_reconds(ctx, res)
         run_cfg(ctx, res, cfg_cases(ctx))
     res.samples = [cases[3], cases[len(cases) // 2]]
     return res
